@@ -51,6 +51,7 @@ func (m *gaugeMax) take() (http2.VerifGauges, int64) {
 func TestC13(t *testing.T) {
 	r := vf.Begin(t, "C13")
 	defer r.End()
+	defer perturbReport(r)
 	r.Describe("adversarial frame schedules against small limits (MaxConcurrentStreams 1-8, MaxRequestBodySize 1-64 KiB, MaxHeaderListSize 1-16 KiB) with slow or parked handlers, each run with N and 4N frames (synctest bubble): rapid HEADERS+RST_STREAM, streams left half-open, PRIORITY on ever-new idle ids, "+
 		"endless CONTINUATION (small fields, zero-length frames, one never-ending literal whose declared length is 2^40), bodies over the limit declared and undeclared, content-length lies, PING/SETTINGS floods with and without a reading peer, and combinations. "+
 		"Monitors: handlers running concurrently <= MaxConcurrentStreams at every handler entry; body and header list seen by a handler within the limits; gauges sampled by the stream loop at every iteration (hook H2: stream table, closed ring, self-reset set, buffered header bytes, buffered body bytes, queue lengths) within the documented constants, "+
